@@ -417,3 +417,41 @@ Theorem C13_timer_bail_refuted :
   /\ records false (gev_of (time_guard false true (format_event Full o (Thr [] []))) em) = [].
 Proof. exact timer_failure_example. Qed.
 Print Assumptions C13_timer_bail_refuted.
+
+(** ---- span events reconfigured at run time ([reload::Handle::modify(|s| s.set_span_events(..))] / [Handle::reload] on a fmt
+    subscriber behind [reload::Subscriber]).  For EVERY history of events, span creations / enters / exits / closes and
+    reconfigurations, from every state (whatever spans already carry [Timings]): each lifecycle point that is configured AT
+    THE MOMENT IT HAPPENS reaches [on_event] as exactly one emission with the span's metadata and scope, named after the
+    point; one that is not configured then, none; an event itself; a reconfiguration nothing.  In particular the [close]
+    record does not depend on whether the span carries [Timings] (stored at creation only when CLOSE was configured
+    then): the extension decides the two duration fields, nothing else. *)
+Theorem C13_reconf_each_configured_point_one_record : forall timing ops st,
+  Forall2 (fun scx ems => point_spec (fst scx) (snd scx) ems)
+          (combine (cfgs_at (r_cfg st) ops) ops) (rtrace false timing st ops).
+Proof. exact reconf_each_point_one_record. Qed.
+Print Assumptions C13_reconf_each_configured_point_one_record.
+
+Theorem C13_reconf_close_record_with_or_without_timings : forall timing st id m scope, sc_close (r_cfg st) = true ->
+  fst (rstep false timing st (RClose id m scope)) = [Em m scope (close_flds (has_timings st id))].
+Proof. exact reconf_close_record. Qed.
+Print Assumptions C13_reconf_close_record_with_or_without_timings.
+
+Theorem C13_reconf_timings_decided_at_creation : forall gated timing st id m scope,
+  has_timings (snd (rstep gated timing st (RNew id m scope))) id = (timing && sc_close (r_cfg st) || has_timings st id)%bool.
+Proof. exact reconf_timings_at_creation. Qed.
+Print Assumptions C13_reconf_timings_decided_at_creation.
+
+(** the tree under check has the shape the theorem is about (read from on_close on every run; does not compile on seeded C13-J) *)
+Theorem C13_close_not_timing_gated_in_tree : Gen_fmtbuf.close_timing_gated = false.
+Proof. reflexivity. Qed.
+Print Assumptions C13_close_not_timing_gated_in_tree.
+
+(** the gated shape ([if fmt_timing { if let Some(timing) = .. { timed record } } else { plain record }], seeded C13-J)
+    loses the configured close record of a span created before CLOSE was switched on *)
+Theorem C13_close_timing_gated_refuted : forall m s0 s1,
+  rexpand false true (SpanCfg false false false false) (reconf_history m s0 s1)
+    = [Em m [s0; s1] (close_flds true); Em m [s0] (close_flds false)]
+  /\ rexpand true true (SpanCfg false false false false) (reconf_history m s0 s1)
+    = [Em m [s0; s1] (close_flds true)].
+Proof. exact reconf_gated_witness. Qed.
+Print Assumptions C13_close_timing_gated_refuted.
